@@ -203,6 +203,30 @@ func main() {
 			lib.Fatalf("%s: addOrUpdateEndpoint: parent of the endpoint context not recognised", fCI)
 		}
 
+		// 4b. PickOne (the pick behind ClientFor: TokenReview / SubjectAccessReview webhooks) is the same pick as the
+		// dispatcher's: a fresh strategy over AllEndpoints() and nothing but its Pop() — no remembered endpoint
+		po := must(lib.FuncDecl(ci, "ClusterInfo", "PickOne"), fCI, "PickOne")
+		var rets []*ast.ReturnStmt
+		ast.Inspect(po.Body, func(x ast.Node) bool {
+			if _, ok := x.(*ast.FuncLit); ok {
+				return false
+			}
+			if rs, ok := x.(*ast.ReturnStmt); ok {
+				rets = append(rets, rs)
+			}
+			return true
+		})
+		pickOnePlain := len(rets) == 1 && len(rets[0].Results) == 1 && len(calls(rets[0].Results[0], "Pop")) == 1 &&
+			len(calls(po.Body, "AllEndpoints")) == 1
+		if len(calls(po.Body, "Pop")) == 0 {
+			lib.Fatalf("%s: PickOne does not pick through Pop", fCI)
+		}
+		cp := g.ParseFile("pkg/clusters/clientprovider.go")
+		cf := must(lib.FuncDecl(cp, "manager", "ClientFor"), "pkg/clusters/clientprovider.go", "ClientFor")
+		if len(calls(cf.Body, "Get")) != 1 || len(calls(cf.Body, "PickOne")) != 1 {
+			lib.Fatalf("pkg/clusters/clientprovider.go: ClientFor is not Get(name) + PickOne()")
+		}
+
 		// 5/6. syncEndpoints: removed endpoints leave the map and are cancelled
 		se := must(lib.FuncDecl(ci, "ClusterInfo", "syncEndpoints"), fCI, "syncEndpoints")
 		leavesMap := len(calls(se.Body, "LoadAndDelete")) > 0
@@ -403,6 +427,7 @@ func main() {
 		w("aliasDropStops", aliasStops && withStopStops || !aliasStops && plainStops,
 			fCtrl+": AddOrUpdateForServerNames removes an old server name with a stopping delete")
 		w("endpointCtxChildOfCluster", epChild, fCI+": addOrUpdateEndpoint derives the endpoint context from the cluster context")
+		w("pickOneIsPlainPop", pickOnePlain, fCI+": PickOne (behind ClientFor: the TokenReview / SubjectAccessReview webhooks) returns nothing but the Pop() of a fresh strategy over AllEndpoints(): the pick set of the model's `pickable`, no remembered endpoint")
 		w("removedEndpointLeavesMap", leavesMap, fCI+": syncEndpoints takes removed endpoints out of ClusterInfo.Endpoints (LoadAndDelete)")
 		w("removedEndpointCancelled", cancelled, fCI+": syncEndpoints calls the removed endpoint's cancel function")
 		w("healthCheckCtxChildOfEndpoint", hcChild, fEP+": EnsureGatewayHealthCheck derives the loops' context from its ctx argument and both goroutines return when it ends")
